@@ -123,6 +123,7 @@ func init() {
 		Runs: []RunDef{
 			{Fn: "H_array", Tier: "quick", Reach: []string{"end"}},
 			{Fn: "H_array_text", Fuel: 30_000_000, Tier: "quick", Reach: []string{"end"}},
+			{Fn: "H_array_history", Fuel: 30_000_000, Tier: "quick", Reach: []string{"end"}},
 			c15s(0, 0, "quick"), c15s(0, 1, "quick"), c15s(1, 0, "quick"), c15s(1, 1, "quick"), c15s(2, 0, "quick"), c15s(2, 1, "quick"), c15s(2, 2, "quick"),
 			c15s(3, 1, "thorough"), c15s(3, 2, "thorough"), c15s(4, 1, "thorough"), c15s(4, 2, "thorough"),
 		},
@@ -167,6 +168,7 @@ func init() {
 			{Fn: "H_two", Fuel: 20_000_000, Tier: "quick", Reach: []string{"end"}},
 			{Fn: "H_members", Fuel: 20_000_000, Tier: "quick", Reach: []string{"end"}},
 			{Fn: "H_factory", Fuel: 20_000_000, Tier: "quick", Reach: []string{"end"}},
+			{Fn: "H_site_reuse", Fuel: 20_000_000, Tier: "quick", Reach: []string{"end"}},
 			{Fn: "H_pair_two", Fuel: 20_000_000, Tier: "quick", Reach: []string{"end"}},
 			{Fn: "H_member_forms", Fuel: 20_000_000, Tier: "quick", Reach: []string{"end"}},
 			{Fn: "H_history", Params: k(2), Fuel: 20_000_000, Tier: "quick", Reach: []string{"end"}},
